@@ -372,6 +372,128 @@ theorem startup_total (cfg : Cfg) (hW : 1 ≤ cfg.W) {w : Wallet} {old : BlockId
       simp only [startup, startupDuring, he, if_neg hr, hs1]
       rfl
 
+/-! ### Blocks arriving while the start-up rescan is in flight (`during`)
+
+`BlockConnected` / `RelevantTx` / `FilteredBlockConnected` are handled without looking at `chainSynced`, so on these
+notifications the not-yet-synced wallet behaves like the synced one. -/
+
+def NoSyncRead : Ntfn → Prop
+  | .connected _ => True
+  | .relevantTx _ _ => True
+  | .filtered _ _ => True
+  | _ => False
+
+theorem addRelevantTx_setSynced (w : Wallet) (b : Bool) (t : Tx) (blk : Option Stamp) :
+    addRelevantTx (setSynced w b) t blk = setSynced (addRelevantTx w t blk) b := by
+  cases blk with
+  | some s =>
+    show _ = setSynced (if _ then _ else _) b
+    rw [apply_ite (fun x => setSynced x b)]; rfl
+  | none =>
+    show _ = setSynced (if _ then _ else _) b
+    rw [apply_ite (fun x => setSynced x b)]; rfl
+
+theorem foldTxs_setSynced (b : Bool) (blk : Option Stamp) (ts : List Tx) : ∀ (w : Wallet),
+    ts.foldl (fun w t => addRelevantTx w t blk) (setSynced w b)
+      = setSynced (ts.foldl (fun w t => addRelevantTx w t blk) w) b := by
+  induction ts with
+  | nil => intro w; rfl
+  | cons t ts ih => intro w; simp only [List.foldl_cons, addRelevantTx_setSynced, ih]
+
+theorem handle_setSynced (cfg : Cfg) (w : Wallet) (b : Bool) (n : Ntfn) (hn : NoSyncRead n) :
+    handle cfg (setSynced w b) n = setSynced (handle cfg w n) b := by
+  cases n with
+  | connected s =>
+    simp only [handle, connectBlock, putSyncedTo_eq]
+    by_cases hc : s.height > 0 ∧ w.birthdaySet = true ∧ w.hashes (s.height - 1) = none
+    · have hc' : s.height > 0 ∧ (setSynced w b).birthdaySet = true ∧ (setSynced w b).hashes (s.height - 1) = none := hc
+      rw [if_pos hc, if_pos hc']; rfl
+    · have hc' : ¬ (s.height > 0 ∧ (setSynced w b).birthdaySet = true ∧ (setSynced w b).hashes (s.height - 1) = none) := hc
+      rw [if_neg hc, if_neg hc']; rfl
+  | relevantTx t blk => exact addRelevantTx_setSynced w b t blk
+  | filtered s ts => exact foldTxs_setSynced b (some s) ts w
+  | disconnected _ => exact absurd hn (by simp [NoSyncRead])
+  | rescanFinished _ _ => exact absurd hn (by simp [NoSyncRead])
+
+theorem process_setSynced (cfg : Cfg) (b : Bool) (ns : List Ntfn) : ∀ (w : Wallet), (∀ n ∈ ns, NoSyncRead n) →
+    process cfg (setSynced w b) ns = setSynced (process cfg w ns) b := by
+  induction ns with
+  | nil => intro w _; rfl
+  | cons n ns ih =>
+    intro w h
+    simp only [process, List.foldl_cons] at ih ⊢
+    rw [handle_setSynced cfg w b n (h n (List.mem_cons_self ..))]
+    exact ih _ (fun n' hn' => h n' (List.mem_cons_of_mem _ hn'))
+
+theorem connectNtfns_noSyncRead (C : Content) (m : TxMode) (b : BlockId) : ∀ n ∈ connectNtfns C m b, NoSyncRead n := by
+  intro n hn
+  cases m <;> simp only [connectNtfns, List.mem_cons, List.mem_map, List.mem_append,
+    List.not_mem_nil, or_false] at hn
+  · rcases hn with h | ⟨t, _, h⟩ <;> subst h <;> trivial
+  · rcases hn with ⟨t, _, h⟩ | h <;> subst h <;> trivial
+  · rcases hn with h | h <;> subst h <;> trivial
+
+theorem connectBranch_noSyncRead (C : Content) (m : TxMode) (br : List Nat) : ∀ (base : BlockId),
+    ∀ n ∈ connectBranch C m base br, NoSyncRead n := by
+  induction br with
+  | nil => intro base n hn; simp [connectBranch] at hn
+  | cons x br ih =>
+    intro base n hn
+    simp only [connectBranch, List.mem_append] at hn
+    rcases hn with h | h
+    · exact connectNtfns_noSyncRead C m _ n h
+    · exact ih _ n h
+
+theorem setSynced_of_synced (w : Wallet) (h : w.chainSynced = true) : setSynced w true = w := by
+  cases w; simp only [setSynced] at *; subst h; rfl
+
+/-- **Blocks arriving during the rescan, nothing to catch up**: the backend's chain is the wallet's (`old`) when the
+    rescan request is evaluated, the blocks `br` are connected on top of it before `RescanFinished(old)` is processed.
+    Start-up succeeds and the wallet is in sync with the extended chain.  (With something to catch up the connects are
+    dropped — predecessor not remembered — and `RescanFinished` only catches up to the height the rescan was started
+    for: the race the TODO in `catchUpHashes` documents; see the `example` in Props/C15.) -/
+theorem startup_blocks_during_rescan (cfg : Cfg) (hW : 1 ≤ cfg.W) {w : Wallet} {old : BlockId} {lo : Nat}
+    (hS : StoppedInv cfg w old lo) (batch : Nat) (m : TxMode) (br : List Nat) :
+    ∃ w', startupDuring cfg 0 batch w old (connectBranch cfg.C m old br) = (w', true) ∧
+      Inv cfg w' (br.reverse ++ old) (loAfterN cfg.W lo old.length br.length) := by
+  have hS0 := hS.unsynced
+  have hcm : IsLastCommon old old old.length :=
+    ⟨Nat.le_refl _, Nat.le_refl _, rfl, fun h h1 h2 _ => by omega⟩
+  have hlo := hS.lo_le
+  obtain ⟨w1, he⟩ := startupRollback_succeeds cfg hS0 old old.length (Nat.le_refl _) hcm hlo (Or.inl rfl)
+  rcases startup_rolls_to_common_ex cfg hS0 old with ⟨e, he'⟩ | ⟨w1', c, he', hc, r1, _, _, r4, r5, r6, r7, r8, r9, _⟩
+  · rw [he] at he'; cases he'
+  · rw [he] at he'
+    have : w1' = w1 := (Except.ok.inj he').symm
+    subst this
+    have hce : c = old.length := isLastCommon_unique hc hcm
+    subst hce
+    rw [ancestorAt_self] at r1
+    have hI1 : Inv cfg (setSynced w1' true) old lo := by
+      refine ⟨rfl, by show w1'.birthdaySet = true; rw [r8]; exact hS.bday, r1, hlo, hS.window, ?_, ?_, r6⟩
+      · intro h h1 h2; exact r5 h h1 h2
+      · intro h x h1 hx; exact r4 h x h1 hx
+    have hI2 := connectBranch_inv hW m br hI1
+    have hs1 : w1'.syncedTo.height = old.length := by rw [r1]; rfl
+    have hw1 : w1' = setSynced (setSynced w1' true) false := by
+      have : w1'.chainSynced = false := r9
+      cases w1'; simp only [setSynced] at *; subst this; rfl
+    refine ⟨process cfg (setSynced w1' true) (connectBranch cfg.C m old br), ?_, hI2⟩
+    simp only [startupDuring, he, Nat.lt_irrefl, if_false, hs1, rescanTxNtfns, Nat.sub_self, blocksFrom,
+      List.map_nil, List.flatten_nil, List.nil_append, process_append]
+    rw [show process cfg w1' (connectBranch cfg.C m old br)
+        = setSynced (process cfg (setSynced w1' true) (connectBranch cfg.C m old br)) false from by
+      conv => lhs; rw [hw1]
+      exact process_setSynced cfg false _ _ (connectBranch_noSyncRead cfg.C m br old)]
+    generalize process cfg (setSynced w1' true) (connectBranch cfg.C m old br) = w2 at hI2 ⊢
+    have hh : (setSynced w2 false).syncedTo.height = (br.reverse ++ old).length := by
+      show w2.syncedTo.height = _
+      rw [hI2.tipEq]; rfl
+    have hz : old.length - (setSynced w2 false).syncedTo.height = 0 := by
+      rw [hh]; simp
+    simp only [process, List.foldl_cons, List.foldl_nil, handle, catchUpHashes, hz, catchUpFrom, orKeep]
+    exact Prod.ext (setSynced_of_synced w2 hI2.synced) rfl
+
 /-! ### Corollaries used by Props/C15 -/
 
 /-- Ghost lower end of the remembered range after a successful start-up: `min lo c` pushed up by pruning. -/
